@@ -433,7 +433,7 @@ MANIFEST = {
     "technique": "Coq proof (refinement of Call/Return/TailCall to the PlusCal stack machine, induction over the bracket structure of call traces) "
                  "+ differential correspondence model vs real MPCalContexts over hand-built procedure tables",
     "text": ("Theorems in coq/Properties/C04.v, closed under the global context: call_refines, return_refines, tailcall_refines (the runtime's Call/Return/TailCall on any store, table and "
-             "argument list take exactly the specification's step), run_refines (any event list), activation_isolation (any well-bracketed trace with recursion, mutual recursion, tail calls "
+             "argument list take exactly the specification's step), run_refines (any event list), call_defined / return_defined with live_preserved_* (conversely, where the specification step is defined the runtime does not panic), activation_isolation (any well-bracketed trace with recursion, mutual recursion, tail calls "
              "and writes through references: after the matching return every variable outside the reference set has its pre-call value, .pc is the return label, .stack the pre-call stack), "
              "abort_between (any events inside a section: abort restores every variable and the stack). Two defects repaired in /repo (recursion, tail call)."),
     "level_note": ("Trusted: Coq kernel; the hand-written model (tie = differential execution of generated call graphs incl. aborts and malformed programs: 250 quick / 5000 thorough scripts); "
